@@ -33,10 +33,11 @@ REGISTRATION = {
 MODULES = ["OllamaVerif.Properties.C18", "OllamaVerif.Proofs.Sampler", "OllamaVerif.Model.Sampler"]
 THEOREMS = ["OllamaVerif.C18." + t for t in (
     "greedy_argmax", "filters_nonempty_prefix", "topK_isTopK", "index_in_range",
-    "sample_admissible_partial", "never_neg_inf", "result_mem_filters", "pick_search_spec",
+    "sample_admissible_partial", "sample_admissible_fixed_partial", "never_neg_inf", "result_mem_filters",
+    "pick_search_spec",
     "deterministic", "stream_of_seed", "F18_nan_instead_of_token", "F18_guard_fails",
     "F18b_greedy_keeps_leading_nan", "zOps_laws")] + [
-    "OllamaVerif.Sampler.pick_spec", "OllamaVerif.Sampler.afterTopK_spec", "OllamaVerif.Sampler.bsearch_spec",
+    "OllamaVerif.Sampler.pick_spec", "OllamaVerif.Sampler.afterTopK_spec", "OllamaVerif.Sampler.afterTopK_spec_fix", "OllamaVerif.Sampler.bsearch_spec",
 ]
 OVERLAY = {"sample/zz_verif_c18_test.go": "sample/zz_verif_c18_test.go"}
 
